@@ -30,7 +30,9 @@ FLOOR = {'quick': 20000, 'thorough': 200000}
 CORRUPT = ['', ' ', 'x', '-', '1e400', '99999999999999999999', '2020-13-01', '9' * 2048, 'true', '2020-01-02', 'PT1S', 'é\U0001F600',
            '-0', '0x10', '1,5', 'NaN', 'null', '{}', '[]', '<a/>', '&amp;',
            # long literals (error paths that abbreviate what they report): mis-padded, outside every alphabet
-           'A' * 101, 'ab' * 75 + '=', '!' * 120]
+           'A' * 101, 'ab' * 75 + '=', '!' * 120,
+           # printf-like directives (error paths that build their message with %)
+           '1%s', '%d%d', '100%', '%(x)s']
 STRUCT_ALPHABET = b'<>/="\'{}[]:,&;?! \n\x00\xff\x80aA0-.'
 
 
@@ -38,7 +40,7 @@ def corpus_atoms(tier):
     ids = ['Integer', 'Byte', 'Decimal', 'Double', 'Boolean', 'Unicode', 'Uuid', 'DateTime', 'Date', 'Time', 'Duration',
            'ByteArray', 'ByteArray(hex)', 'ByteArray(urlsafe_base64)', 'Enum', 'Integer(ge,le)', 'Unicode(pattern)', 'Mandatory(Integer)']
     if tier == 'quick':
-        ids = ['Integer', 'Decimal', 'Boolean', 'Unicode', 'DateTime', 'Duration', 'ByteArray', 'ByteArray(hex)', 'ByteArray(urlsafe_base64)', 'Enum',
+        ids = ['Integer', 'Decimal', 'Double', 'Boolean', 'Unicode', 'DateTime', 'Duration', 'ByteArray', 'ByteArray(hex)', 'ByteArray(urlsafe_base64)', 'Enum',
                'Mandatory(Integer)']
     return ids
 
